@@ -49,7 +49,7 @@ m = {
     ],
     "checks": checks,
     "not_applicable": [{"property_id": k, "reason": v} for k, v in sorted(NOT_APPLICABLE.items())],
-    "notes": "Solver-based checking only (see DESIGN.md). Exit 2 = inconclusive (never success, never a violation).",
+    "notes": "Solver-based checking only (see DESIGN.md). Exit 2 = inconclusive (never success, never a violation). No hooks in /repo (the overlay appends cfg(kani) harness modules to a scratch copy). One unguarded repair commit in /repo: ddc6771 'fix: reject a database file shorter than its header instead of reading past its end' (C20, DESIGN.md 6b, known_findings.json kind=fixed).",
 }
 with open(os.path.join(VERIF, "MANIFEST.json"), "w") as fh:
     json.dump(m, fh, indent=1)
